@@ -294,6 +294,8 @@ def pool(R, prog):
 
 
 def run(R, prog, tier):
+    R.guard(C.expired_sleepers, R, prog, P)
+    R.guard(C.wait_all_covers_every_queue, R, prog, P)
     R.guard(C.interrupt_retest_under_lock, R, prog, P)
     R.guard(counters, R, prog)
     R.guard(runq_discipline, R, prog)
